@@ -16,8 +16,13 @@ Record docview := mkView {
   v_xbit : bool;
   v_rev : N;
   v_json : bool;
-  v_del : bool           (* the dump (backfill) feed reports a deletion *)
+  v_del : bool;          (* the dump (backfill) feed reports a deletion *)
+  v_docx : option string; (* the virtual xattr $document as GetWithXattrs returns it *)
+  v_revx : option string  (* the virtual xattr $document.revid *)
 }.
+
+Definition doc_xattr (name : string) (r : resp) : option string :=
+  match r with RDoc _ xs _ => alookup String.eqb name xs | _ => None end.
 
 Definition view_of_obs (o : obsrow) : option docview :=
   match o_dump o with
@@ -25,14 +30,16 @@ Definition view_of_obs (o : obsrow) : option docview :=
   | Some f =>
       Some (mkView (match o_get o with RVal v _ => Some v | _ => None end)
                    (f_cas f) (f_exp f) (f_xattrs f) (f_xbit f) (f_rev f) (f_json f)
-                   (match f_op f with FDeletion => true | _ => false end))
+                   (match f_op f with FDeletion => true | _ => false end)
+                   (doc_xattr "$document" (o_doc o)) (doc_xattr "$document.revid" (o_doc o)))
   end.
 
 Definition xlist (x : xcol) : list (string * string) := match xparse x with Some m => m | None => [] end.
 Definition xbit (x : xcol) : bool := match x with XNull => false | _ => true end.
 
 Definition view_of_row (r0 : row) : docview :=
-  mkView (r_value r0) (r_cas r0) (r_exp r0) (xlist (r_xattrs r0)) (xbit (r_xattrs r0)) (r_rev r0) (r_isJSON r0) (r_tomb r0).
+  mkView (r_value r0) (r_cas r0) (r_exp r0) (xlist (r_xattrs r0)) (xbit (r_xattrs r0)) (r_rev r0) (r_isJSON r0) (r_tomb r0)
+         (Some (docx_string (r_value r0) (r_rev r0))) (Some (revx_string (r_rev r0))).
 
 Definition has_body (v : option docview) : bool := match v with Some d => is_some (v_body d) | None => false end.
 
@@ -75,7 +82,7 @@ Defined.
 Definition docview_eq_dec : forall a b : docview, {a = b} + {a <> b}.
 Proof.
   decide equality; try apply N.eq_dec; try apply bool_dec; try (apply list_eq_dec; apply sspair_eq_dec).
-  decide equality; apply string_dec.
+  all: decide equality; apply string_dec.
 Defined.
 Definition odocview_eq_dec : forall a b : option docview, {a = b} + {a <> b}.
 Proof. decide equality; apply docview_eq_dec. Defined.
@@ -326,12 +333,18 @@ Definition chk_row_C08 : rowchk := fun key coll x op pre resp evs post =>
     end
   else match evs with [] => true | _ => false end.
 
-(* C17: every successful mutation adds exactly one to the revision number (1 on creation) *)
+(* C17: every successful mutation adds exactly one to the revision number (1 on creation); the
+   backfill event (v_rev), $document.revid, the value inside $document and the live events agree *)
+Definition revid_ok (d : docview) : bool :=
+  ostr_eqb (v_revx d) (Some (revx_string (v_rev d)))
+  && ostr_eqb (v_docx d) (Some (docx_string (v_body d) (v_rev d))).
+
 Definition chk_row_C17 : rowchk := fun key coll x op pre resp evs post =>
   let rev0 := match pre with Some d => v_rev d | None => 0 end in
   let rev1 := match post with Some d => v_rev d | None => 0 end in
   (if mutated op resp then rev1 =? rev0 + 1 else rev1 =? rev0)
-  && forallb (fun e => f_rev e =? rev1) evs.
+  && forallb (fun e => f_rev e =? rev1) evs
+  && match post with Some d => revid_ok d | None => true end.
 
 (* ------------------------------------------------------------------------------------------ *)
 (* Walking a recorded history                                                                   *)
